@@ -24,7 +24,7 @@ RULE = ("tables of 0-60 rows x 1-6 columns (and of 8 192 - 70 000 rows x 1-3 col
         "value) and int64; missing value in {absent, 0, -9999, only in other columns, everywhere}; Float / Integer / default type; blank "
         "lines; LF / CRLF; write cases with 1-4 results in any type order; distinct by (case kind, dtype request, missing class, ncols, "
         "has-blank-lines, eol, header class)")
-REQUIRED_COUNTERS = ["tables_through_the_command_line_tool", "columns_read_and_compared", "mask_checks", "other_column_independence_checks", "error_line_checks", "files_written_and_parsed", "read_after_write_checks", "same_path_rereads", "ragged_other_column_checks", "large_files_read", "reruns_after_the_file_was_repaired"]
+REQUIRED_COUNTERS = ["tool_started_in_the_directory_of_the_file", "tables_through_the_command_line_tool", "columns_read_and_compared", "mask_checks", "other_column_independence_checks", "error_line_checks", "files_written_and_parsed", "read_after_write_checks", "same_path_rereads", "ragged_other_column_checks", "large_files_read", "reruns_after_the_file_was_repaired"]
 ASSUMPTIONS = ["don't-care: textual form of missing cells in written files, fractional cells read as Integer, NaN/inf, rows too short to hold the requested column, rank != 1 on write",
                "integers are generated within +-2^53 (cells are parsed through float())"]
 
@@ -471,14 +471,24 @@ def run_write(ctx, case):
         fp = os.path.join(d2, "model.mpt")
         with open(fp, "w") as f:
             f.write("\n".join(lines) + "\n")
-        try:
-            res = CliRunner(mix_stderr=False).invoke(main, ["eems-csv", fp])
-        except TypeError:
-            res = CliRunner().invoke(main, ["eems-csv", fp])
-        ctx.count("tables_through_the_command_line_tool")
-        if res.exit_code != 0 or not os.path.exists(os.path.join(d2, "out2.csv")):
-            ctx.fail("tool:read-write-model-fails", {"exit": res.exit_code, "exception": repr(res.exception)[:200]})
-            return
+        if case["rseed"] % 24 == 0:
+            # started the way users start it: in the directory of the command file, by its bare name
+            from mpv import tool
+            r2 = tool.run_tool(["eems-csv", "model.mpt"], cwd=d2)
+            ctx.count("tables_through_the_command_line_tool")
+            ctx.count("tool_started_in_the_directory_of_the_file")
+            if r2 is None or r2[0] != 0 or not os.path.exists(os.path.join(d2, "out2.csv")):
+                ctx.fail("tool:read-write-model-fails:started-in-the-directory-of-the-file", {"exit": r2 and r2[0], "stderr": (r2[2][-300:] if r2 else None)})
+                return
+        else:
+            try:
+                res = CliRunner(mix_stderr=False).invoke(main, ["eems-csv", fp])
+            except TypeError:
+                res = CliRunner().invoke(main, ["eems-csv", fp])
+            ctx.count("tables_through_the_command_line_tool")
+            if res.exit_code != 0 or not os.path.exists(os.path.join(d2, "out2.csv")):
+                ctx.fail("tool:read-write-model-fails", {"exit": res.exit_code, "exception": repr(res.exception)[:200]})
+                return
         with open(os.path.join(d2, "out2.csv"), newline="", encoding="utf-8") as f:
             rows2 = [r for r in csv.reader(f) if r]
         if len(rows2) != t["nrows"] + 1:
